@@ -104,7 +104,8 @@ struct gstate {
 	int strategy;		/* 0 random walk, 1 PCT, 2 stall-one, 3 explicit */
 	uint32_t stick;		/* /256 */
 	int ntimed_frozen;
-	int sync_bias;		/* random walk: preemptions concentrated at synchronisation calls (lock/unlock/futex/...) */
+	int sync_bias;
+	int thread_stalls;	/* this run: every new thread may get one long planned stall */		/* random walk: preemptions concentrated at synchronisation calls (lock/unlock/futex/...) */
 	uint32_t p_plain;	/* /256 : 0, 16, 64, 256 */
 	uint32_t p_drain;	/* /256 */
 	int membarrier_kind;	/* 0 none 1 shared 2 private expedited */
